@@ -17,6 +17,7 @@ import (
 	"os/exec"
 	"path/filepath"
 	"sync"
+	"syscall"
 	"time"
 	"unicode/utf8"
 
@@ -135,11 +136,39 @@ func (ce *cliEnv) run(in c18Input) (bool, []byte, bool, int) {
 		args = append(args, "--trim-space")
 	}
 	var stdin io.Reader
-	if in.Source == "file" {
+	switch in.Source {
+	case "file":
 		p := filepath.Join(ce.work, "cli-input.bin")
 		os.WriteFile(p, in.S, 0600)
 		args = append(args, "--from-file", p)
-	} else {
+	case "fifo":
+		// --from-file naming something that is not a regular file (a named pipe, bash's <(cmd)): its size
+		// says nothing about how much there is to read
+		p := filepath.Join(ce.work, "cli-input.fifo")
+		os.Remove(p)
+		if err := syscall.Mkfifo(p, 0600); err != nil {
+			return false, nil, false, 0
+		}
+		defer os.Remove(p)
+		go func(data []byte) {
+			// wait (bounded) for the command to open its end; never block for ever if it does not
+			for t0 := time.Now(); time.Since(t0) < 10*time.Second; time.Sleep(2 * time.Millisecond) {
+				fd, err := syscall.Open(p, syscall.O_WRONLY|syscall.O_NONBLOCK, 0)
+				if err != nil {
+					continue
+				}
+				syscall.SetNonblock(fd, false)
+				f := os.NewFile(uintptr(fd), p)
+				f.Write(data)
+				f.Close()
+				return
+			}
+		}(append([]byte(nil), in.S...))
+		args = append(args, "--from-file", p)
+	case "devstdin":
+		args = append(args, "--from-file", "/dev/stdin")
+		stdin = bytes.NewReader(in.S)
+	default:
 		stdin = bytes.NewReader(in.S)
 	}
 	args = append(args, "secret/name")
@@ -616,9 +645,12 @@ func runC18(o Opts) {
 	}
 	for _, in := range inputs {
 		for f := 0; f < 8; f++ {
-			for _, src := range []string{"file", "pipe"} {
+			for _, src := range []string{"file", "pipe", "fifo", "devstdin"} {
 				if !thorough && src == "file" && f%3 == 1 && len(in) > 8 {
 					continue // quick tier: thin out
+				}
+				if !thorough && (src == "fifo" && f%2 == 1 && len(in) > 6 || src == "devstdin" && f%4 != 1) {
+					continue
 				}
 				rec := c18Run(ce, work, c18Input{Kind: "cli", S: in, EmptyOK: f&1 != 0, Verbatim: f&2 != 0, Trim: f&4 != 0, Source: src})
 				rec.ID = out.n
